@@ -231,10 +231,42 @@ func checkC03(R *Run) {
 			}
 		}
 		bad := 0
+		isSubjectFn := func(f *ssa.Function) bool {
+			for _, s2 := range subjects {
+				if s2 == f {
+					return true
+				}
+			}
+			return entrySet[f] || fname(f) == "(*hotline.ClientConn).handleTransaction" || f.Pkg != nil && f.Pkg.Pkg.Path() == cmdPath
+		}
+		// a function literal of a package-level table is not run by the package initialiser it is written in: it runs
+		// where the table's function values are called
+		var tableLitGuarded func(lit *ssa.Function, depth int) bool
+		tableLitGuarded = func(lit *ssa.Function, depth int) bool {
+			if depth > 3 {
+				return false
+			}
+			for _, ci2 := range P.callers[lit] {
+				c2 := ci2.Parent()
+				if c2.Parent() != nil && rootFn(c2).Name() == "init" {
+					if !tableLitGuarded(c2, depth+1) {
+						return false
+					}
+					continue
+				}
+				if !isSubjectFn(rootFn(c2)) {
+					return false
+				}
+			}
+			return true
+		}
 		for _, s := range subjects {
 			for _, ci := range P.callers[s] {
 				caller := rootFn(ci.Parent())
 				if entrySet[caller] || fname(caller) == "(*hotline.ClientConn).handleTransaction" {
+					continue
+				}
+				if ci.Parent().Parent() != nil && caller.Name() == "init" && caller.Signature.Recv() == nil && tableLitGuarded(ci.Parent(), 0) {
 					continue
 				}
 				if caller.Pkg != nil && caller.Pkg.Pkg.Path() == cmdPath {
@@ -751,6 +783,14 @@ func checkC03(R *Run) {
 					}
 				}
 			})
+			if len(authCut) == 0 {
+				// the comparison Authenticate consists of, written out in the login sequence (see login-gate)
+				factEdgesImplied(fn, func(e Edge, f Fact) {
+					if _, _, isAuth := P.inlineAuthFact(f); isAuth && f.Holds {
+						authCut[e] = true
+					}
+				})
+			}
 			noAuth := reachable(fn, authCut)[ci.Block()]
 			nilAcc := len(nilCut) == 0 || reachable(fn, nilCut)[ci.Block()]
 			var why []string
@@ -1220,19 +1260,43 @@ func (R *Run) ruleGoNilCapture(guardedReach map[*ssa.Function]bool) {
 			if !ok {
 				return
 			}
-			mc, ok := g.Call.Value.(*ssa.MakeClosure)
-			if !ok {
+			var cl *ssa.Function
+			var bindings []ssa.Value
+			switch cv := g.Call.Value.(type) {
+			case *ssa.MakeClosure:
+				cl, _ = cv.Fn.(*ssa.Function)
+				bindings = cv.Bindings
+			case *ssa.Function:
+				if cv.Parent() != nil {
+					cl = cv
+				}
+			}
+			if cl == nil || g.Call.IsInvoke() {
 				return
 			}
-			cl, _ := mc.Fn.(*ssa.Function)
-			if cl == nil {
-				return
+			// what the goroutine is handed: the variables its literal captures and the arguments of the call
+			type handed struct {
+				b     ssa.Value
+				inner ssa.Value // the free variable or parameter that stands for it inside the goroutine
 			}
-			for i, b := range mc.Bindings {
+			var hs []handed
+			for i, b := range bindings {
+				if i < len(cl.FreeVars) {
+					hs = append(hs, handed{b, cl.FreeVars[i]})
+				}
+			}
+			for i, a := range g.Call.Args {
+				if i < len(cl.Params) {
+					hs = append(hs, handed{a, cl.Params[i]})
+				}
+			}
+			for _, h := range hs {
+				b, fv := h.b, h.inner
+				_, isParam := fv.(*ssa.Parameter)
 				// the captured variable's value
 				v := b
 				var cell *ssa.Alloc
-				if a, isA := b.(*ssa.Alloc); isA {
+				if a, isA := b.(*ssa.Alloc); isA && !isParam {
 					cell = a
 					if val, single := singleStore(a); single {
 						v = val
@@ -1240,12 +1304,22 @@ func (R *Run) ruleGoNilCapture(guardedReach map[*ssa.Function]bool) {
 						continue
 					}
 				}
+				var argCell *ssa.Alloc
+				if isParam {
+					// an argument read from a local variable that is assigned once
+					if u, isU := stripConv(b).(*ssa.UnOp); isU && u.Op == token.MUL {
+						if a, isA := u.X.(*ssa.Alloc); isA {
+							if val, single := singleStore(a); single {
+								v, argCell = val, a
+							}
+						}
+					}
+				}
 				src, isMay := mayNil(stripConv(v))
-				if !isMay || i >= len(cl.FreeVars) {
+				if !isMay {
 					continue
 				}
 				// does the goroutine dereference it?
-				fv := cl.FreeVars[i]
 				derefs := false
 				var vals []ssa.Value
 				if cell != nil {
@@ -1256,6 +1330,9 @@ func (R *Run) ruleGoNilCapture(guardedReach map[*ssa.Function]bool) {
 					}
 				} else {
 					vals = append(vals, fv)
+				}
+				if argCell != nil {
+					cell = argCell
 				}
 				for _, pv := range vals {
 					if pv.Referrers() == nil {
